@@ -12,8 +12,8 @@ def contract(lv, opt):
         err_post(*vstd::prelude::old(d), *final(d), res),
         seg_post(*vstd::prelude::old(d), *final(d), old, old_range, new, new_range, LVL, OPT, fin::<D>(), res.is_ok()),
 ''')
-for name, lv, opt in (('pub fn diff<Old, New, D>(', 'alg_lvl(None)', 'alg != Algorithm::Patience'),
-                      ('pub fn diff_deadline<Old, New, D>(', 'alg_lvl(deadline)', 'deadline is None && alg != Algorithm::Patience')):
+for name, lv, opt in (('pub fn diff<Old, New, D>(', 'lvl_of(alg, None)', 'alg != Algorithm::Patience'),
+                      ('pub fn diff_deadline<Old, New, D>(', 'lvl_of(alg, deadline)', 'deadline is None && alg != Algorithm::Patience')):
     i = o.find(name)
     o.before('{', contract(lv, opt), start=i)
 def sl(lv, opt):
@@ -24,8 +24,8 @@ def sl(lv, opt):
         err_post(*vstd::prelude::old(d), *final(d), res),
         seg_post(*vstd::prelude::old(d), *final(d), old, 0..old.len(), new, 0..new.len(), LVL, OPT, fin::<D>(), res.is_ok()),
 '''.replace('LVL', lv).replace('OPT', opt)
-for name, lv, opt in (('pub fn diff_slices<D, T>(', 'alg_lvl(None)', 'alg != Algorithm::Patience'),
-                      ('pub fn diff_slices_deadline<D, T>(', 'alg_lvl(deadline)', 'deadline is None && alg != Algorithm::Patience')):
+for name, lv, opt in (('pub fn diff_slices<D, T>(', 'lvl_of(alg, None)', 'alg != Algorithm::Patience'),
+                      ('pub fn diff_slices_deadline<D, T>(', 'lvl_of(alg, deadline)', 'deadline is None && alg != Algorithm::Patience')):
     i = o.find(name)
     o.before('{', sl(lv, opt), start=i)
 o.save()
